@@ -29,22 +29,6 @@ pub fn root_filter_f64(i: &[u8], f: &[u8], e: i32) -> f64 {
     minimal_lexical::parse_float(i.iter().filter(keep as fn(&&u8) -> bool), f.iter().filter(keep as fn(&&u8) -> bool), e)
 }
 
-#[cfg(feature = "frontends")]
-#[path = "/repo/examples/simple.rs"]
-mod fe_simple;
-#[cfg(feature = "frontends")]
-#[path = "/repo/fuzz/fuzz_targets/parse.rs"]
-mod fe_fuzz;
-
-#[cfg(feature = "frontends")]
-pub fn root_fe_fuzz_f64(b: &[u8]) -> (f64, &[u8]) {
-    fe_fuzz::parse_float::<f64>(b)
-}
-#[cfg(feature = "frontends")]
-pub fn root_fe_fuzz_f32(b: &[u8]) -> (f32, &[u8]) {
-    fe_fuzz::parse_float::<f32>(b)
-}
-
 /// The whole public API of the fixed-capacity vector, so that every method has a monomorphic
 /// instance to analyse (C13) even when `parse_float` does not reach it.
 #[cfg(not(feature = "alloc"))]
